@@ -304,6 +304,7 @@ class Interp:
             c.before_op(op, prepared)
         if "inject" in op:
             inj = Injector(op["inject"]["ordinal"], op["inject"].get("exc", "KeyboardInterrupt"))
+            self.count("fault_configured:F2")
         exc = None
         self._inj = inj
         try:
